@@ -1013,8 +1013,8 @@ class StreamEngine(Engine):
         if oc == "escape":
             ix, ip = out["site"]
             sig = f"escape:{out['exc']}:{ix}@{ip}" + (":verify" if out["phase"] == "verify" else "")
-            if wl == 0 or out.get("core_site"):
-                where = "a damaged generic-form file" if wl == 0 else "a damaged custom-syntax file (raise site inside the core parser)"
+            if wl == 0 or out.get("core_site") or out["phase"] == "parse":
+                where = "a damaged generic-form file" if wl == 0 else "a damaged custom-syntax file (all dialects registered)"
                 viol = Violation("E-internal-error", f"{ix}@{ip}", 0, f"{out['exc']} escaped from {ix} (parser function {ip}, phase {out['phase']}) on {where}", sig)
             else:
                 st[f"w2_escape_site.{out['exc']}:{ix}"] += 1
@@ -1113,7 +1113,7 @@ class StreamEngine(Engine):
 
     def assumptions(self) -> list[str]:
         return [
-            "containment (no internal error) is judged on W1, and on W2 when the raise site lies in the core parser files (xdsl/parser/*, mlir_lexer, lexer); W2 escapes raised inside dialect-specific code are listed by site, not judged",
+            "containment (no internal error) is judged on W1 (parse and verify) and on W2 for the parse phase (since fix e0f3e8f errors of dialect-specific parsers are parse errors); internal errors raised by dialect-specific *verifiers* on W2 are listed by site, not judged (a long tail outside the anchored files)",
             "RecursionError / MemoryError are resource exhaustion: counted as inconclusive, never a violation",
             f"prompt = at most {STEP_K}*(len+64) Python function calls (deterministic) and {CPU_BASE_S}s + {CPU_PER_CHAR_S * 1000:.0f}ms/char CPU (watchdog, confirmed twice)",
             "work inside a single regex call is invisible to the step clock; only the CPU watchdog bounds it",
